@@ -206,6 +206,7 @@ def record_restructure(
     stage_states: bool = True,
     names: bool = False,
     reload_between: bool = False,
+    via_subgraphs: bool = False,
 ) -> Dict[str, Any]:
     """Run join_returns / restructure_loop / restructure_branch on `scfg`,
     recording every primitive event and the full state at every stage."""
@@ -252,7 +253,16 @@ def record_restructure(
                     beh["exc"] = "reload:" + exc_sig(e)
                     break
             try:
-                getattr(scfg, fn)()
+                if via_subgraphs and name != "closed":
+                    # the same stage, driven through the SUB-GRAPH objects: the level itself, then every top-level region's own
+                    # sub-graph restructures itself (SCFG.restructure_loop / restructure_branch of region.subregion, which works on
+                    # that sub-graph's SCFG.region)
+                    getattr(tr, fn)(scfg.region)
+                    for blk in list(scfg.graph.values()):
+                        if isinstance(blk, bb.RegionBlock) and blk.subregion is not None:
+                            getattr(scfg.graph[blk.name].subregion, fn)()
+                else:
+                    getattr(scfg, fn)()
             except RecursionError as e:
                 t.log("stage", "x", st0["root"], {"name": name}, exc=exc_sig(e))
                 beh["exc"] = exc_sig(e)
